@@ -79,6 +79,7 @@ var c04Leaves = []c04Leaf{
 	{"named-func", "func g(x) { x + 1 }\ng(a)", false, false},
 	{"switch-break", "switch b {\ncase 1:\n break\ncase 2:\n continue\n}\nprobe(81)", true, false},
 	{"value-less", "x := 1", false, false},
+	{"try-callee-fails-mid-expression", "try(func() { return a + [1][5] }, 0)\nprobe(83)", false, false},
 	{"switch-switch-continue", "switch b {\ncase 1:\n switch a {\n case 2:\n  continue\n default:\n  break\n }\n}\nprobe(82)", true, false},
 }
 
